@@ -264,28 +264,32 @@ def check(ctx: Ctx) -> None:
 
     f_nlo = repo.func(f"{GB}.ChannelFactory._no_longer_opened")
     with ctx.obligation("C10.d", "endmarker-once") as ob:
+        from ..terms import evaluator as _ev
+        from ._chan import entry_calls
         n = 0
         for fi in (m for m in repo.scan_funcs() if m.cls is not None and m.cls.name == "ChannelFactory"):
-            cf = None
-            for c in repo.calls_in(fi):
-                if isinstance(c.func, ast.Name) and c.func.id == "callback" and c.args and unparse(c.args[0]) == "endmarker":
-                    n += 1
-                    cf = cf or build_cfg(repo, fi, Oracle(repo, fi, precise=True))
-                    pops = cfg_nodes_with_call(cf, lambda x: callee_attr(x) == "pop" and "_callbacks" in unparse(x.func))
-                    ok = False
-                    for nd in cf.node_containing(c):
-                        for p in pops:
-                            pc = [x for x in calls_in_node(p) if callee_attr(x) == "pop"][0]
-                            var = unparse(p.ast.targets[0]) if isinstance(p.ast, ast.Assign) else None
-                            src = [a for a in repo.own_nodes(fi) if isinstance(a, ast.Assign) and isinstance(a.targets[0], ast.Tuple) and unparse(a.value) == var]
-                            if cf.dominated_by(nd.id, p.id) and src and unparse(src[0].targets[0].elts[0]) == "callback" and unparse(pc.args[0]) == fi.params()[1]:
-                                ok = True
-                    ob.site(fi, c, "callback(endmarker) dominated by the pop of this id's registry entry (consumption => at most once)", ok=ok)
-                    if not ok:
-                        ob.violation(fi, c, "the endmarker is delivered from a registry entry that was not consumed (popped) first: it can be delivered twice")
+            ems = [c for (c, origin, what) in entry_calls(repo, fi) if what == "endmarker" and origin == "_callbacks entry"]
+            if not ems:
+                continue
+            ev = _ev(repo, fi)
+            heads = {x.id for x in ev.cfg.nodes if x.kind in ("test", "for") and isinstance(x.owner, (ast.While, ast.For))}
+            verdict: dict[int, bool] = {}
+            for (_p, st) in ev.run(back_stops=heads, limit=20000):
+                for e in st.events:
+                    if e.kind == "call" and any(e.node is c for c in ems) and e.recv is not None and e.recv[0] == "idx":
+                        E = e.recv[1]
+                        popped = [x for x in st.events if x.kind == "call" and x.result == E and x.callee == "self._callbacks.pop" and x.args[:1] == (("sym", fi.params()[1]),)]
+                        same = e.args[:1] == (("idx", E, ("const", 1)),)
+                        verdict[id(e.node)] = verdict.get(id(e.node), True) and bool(popped) and same
+            for c in ems:
+                n += 1
+                ok = verdict.get(id(c), False)
+                ob.site(fi, c, "callback(endmarker) dominated by the pop of this id's registry entry (consumption => at most once)", ok=ok)
+                if not ok:
+                    ob.violation(fi, c, "the endmarker is delivered from a registry entry that was not consumed (popped) first: it can be delivered twice")
         ob.require(n >= 1, "no endmarker delivery in ChannelFactory")
         # setcallback fires the endmarker itself only on the path that does not register
-        em = [c for c in repo.calls_in(f_set) if isinstance(c.func, ast.Name) and c.func.id == "callback" and c.args and unparse(c.args[0]) == "endmarker"]
+        em = [c for (c, origin, what) in entry_calls(repo, f_set) if what == "endmarker"]
         ob.require(len(em) == 1, "setcallback: direct endmarker delivery not found")
         regs = [nd for nd in cfg.nodes if isinstance(nd.ast, ast.Assign) and isinstance(nd.ast.targets[0], ast.Subscript) and "_callbacks" in unparse(nd.ast.targets[0]) and nd.id in cfg.live()]
         for nd in cfg.node_containing(em[0]):
@@ -303,8 +307,8 @@ def check(ctx: Ctx) -> None:
         # no endmarker delivery elsewhere
         for fi in repo.scan_funcs():
             if fi.module.name == GB and fi.short not in ("Channel.setcallback", "ChannelFactory._no_longer_opened"):
-                for c in repo.calls_in(fi):
-                    if isinstance(c.func, ast.Name) and c.func.id == "callback" and c.args and "endmarker" in unparse(c.args[0]):
+                for (c, _origin, what) in entry_calls(repo, fi):
+                    if what == "endmarker":
                         ob.violation(fi, c, "endmarker delivered outside _no_longer_opened / setcallback")
 
     check_closers_serialised(ctx, "C10.e")
